@@ -175,6 +175,60 @@ def run(ctx):
                         ok = True
             R.ob(ok, "SIBLING", "src/server/rpc_server.rs", "SIBLING|%s|select_bytes" % name, "%s does not obtain its bytes from select_bytes" % name,
                  sample={"rule": "SIBLING", "handler": name, "bytes": "select_bytes(raw, base64)"})
+    # REJECT-CAUSES: the decoder says None only for a reason the format gives: undecodable base64, no prefix byte, an unknown
+    # prefix, a payload over the limit, or a decompressor error.  Any other guard that leads to None refuses some text the
+    # published encoder produces (e.g. the prefix-only text of the empty payload).
+    def none_blocks(fn):
+        out = set()
+        for bi, b in enumerate(fn.blocks):
+            t = b["term"]
+            if t["k"] == "call":
+                pth = (t["func"].get("fn") or {}).get("path", "")
+                if pth.endswith("FromResidual::from_residual") and t["dest"]["l"] == 0:
+                    out.add(bi)
+            for st in b["stmts"]:
+                if st["k"] == "assign" and st["lhs"]["l"] == 0 and not st["lhs"].get("p") and st["rv"]["k"] == "agg" and st["rv"].get("variant") == "None":
+                    out.add(bi)
+        return out
+
+    n_rej = 0
+    helpers = [f for f in F.fns.values() if f.name.endswith("api::types::decode_zstd_into_bytes")]
+    for fn in [d] + helpers:
+        nb = none_blocks(fn)
+        if not nb:
+            continue
+
+        def none_only(sx):
+            reach = fn.reachable(sx, avoid=nb)
+            return not any(b in reach for b in fn.return_blocks())
+        for b in range(len(fn.blocks)):
+            t = fn.term(b)
+            if t["k"] != "switch" or fn.is_cleanup(b):
+                continue
+            succs = fn.succ(b)
+            rej = [sx for sx in succs if sx in nb or none_only(sx)]
+            if not rej or len(rej) == len(succs):
+                continue
+            n_rej += 1
+            disc = origin(fn, t["discr"])
+            forms = [fm for (bb, sx, fm, line) in edge_forms(fn) if bb == b]
+            ok = False
+            why = ""
+            if any(any(c.endswith("CALLDATA_LIMIT") for c in fm.lin.consts) for fm in forms):
+                ok, why = True, "over the limit"
+            elif t.get("ty") == "u8" and len(t["targets"]) >= 2:
+                ok, why = True, "unknown prefix"
+            elif mentions(disc, "Engine::decode") and mentions(disc, "branch") and not mentions(disc, "len"):
+                ok, why = True, "undecodable base64 / no prefix byte"
+            elif mentions(disc, "first") and mentions(disc, "branch"):
+                ok, why = True, "no prefix byte"
+            elif mentions(disc, "get_frame_content_size") or mentions(disc, "decompress") or mentions(disc, "decode_with_limit"):
+                ok, why = True, "decompressor error / declared size"
+            R.ob(ok, "GUARD", "%s:%s" % (fn.loc["f"], t.get("loc", {}).get("l")), "GUARD|decoder|unexpected-reject",
+                 "the decoder returns None on a condition the format does not give (`%s`): some text the published encoder produces is refused "
+                 "(allowed causes: undecodable base64, no prefix byte, unknown prefix, over the limit, decompressor error)" % show(disc)[:90],
+                 sample={"rule": "GUARD decoder reject causes", "cause": why})
+    R.floor("decoder_reject_decisions", n_rej, 5)
     # LIMIT-DOMAIN: the call-data limit bounds *decoded bytes*.  Every guard anywhere in the crate that compares a length
     # directly with CALLDATA_LIMIT measures a byte buffer (base64-decoded data, a frame size, a decompressed length), never
     # the length of the encoded text: base64 text is a third longer than what it carries, so a text-length test refuses
